@@ -95,6 +95,7 @@ fn apply(c: &[u8], m: &Medium) -> Vec<u8> {
             b = v;
         }
         Medium::LostWrite { .. } => {}
+        Medium::TornTrailer { .. } => {}
         Medium::SetU64 { off, val } => {
             if *off + 8 <= n {
                 b[*off as usize..*off as usize + 8].copy_from_slice(&val.to_le_bytes());
